@@ -16,6 +16,20 @@ LIB = os.path.join(SPECS, "lib")
 JAR = "/opt/veriftools/tla/tla2tools.jar:/opt/veriftools/tla/CommunityModules-deps.jar"
 
 
+def _default_workers():
+    """All cores normally; fewer when the machine is already oversubscribed (keeps parallel checks from thrashing)."""
+    n = os.cpu_count() or 4
+    try:
+        load = os.getloadavg()[0]
+    except OSError:
+        load = 0
+    if load > 2 * n:
+        return max(2, n // 4)
+    if load > n:
+        return max(2, n // 2)
+    return min(16, n)
+
+
 class TLCError(Exception):
     """Machinery failure (parse error, timeout, spec-only counterexample, vacuity)."""
 
@@ -104,7 +118,7 @@ def parse_mc_output(out):
 def model_check(engine_dir, module, cfg_text, workers=None, timeout=600, coverage=True,
                 allow_uncovered=(), expect_ok=True, env=None):
     """Exhaustive TLC run.  Raises TLCError on anything but a clean, non-vacuous pass."""
-    workers = workers or min(16, os.cpu_count() or 4)
+    workers = workers or int(os.environ.get("VERIF_TLC_WORKERS", "0")) or _default_workers()
     with scratch("tlc-mc-") as d:
         stage(engine_dir, d)
         cfg = os.path.join(d, "run.cfg")
